@@ -12,6 +12,14 @@ correspond : alias-heavy programs (gen/alias03.py): every value is kept by other
              c03, a fresh Engine per program, STEEL_JIT on and off) against the persistent semantics S computed by the
              compiled Lean driver `c03driver`, which also runs the reference-counting model M next to S and reports
              which path (in place / copy) every update took.
+             The straight-line programs are also compiled by the driver to the lowered core of C01 (`C01C.compile`: real
+             op codes, MOVEREADLOCAL at last uses) and run on the VM model of lean/SteelVerif/C03/VM.lean: same prints as S,
+             and the in-place / copy decisions are reported next to those of the hand-written operation lists.
+bytecode   : gen/bc03.py programs (helpers, closures, nested lets, containers, tail / non-tail updates) -> harness `c03 --bc`
+             prints the REAL compiler's listing and runs it -> `c03driver bc` executes the same listing on the VM model (M and
+             S) -> real result = model result = python S.  Thorough tier: the same against a scratch copy of /repo carrying
+             the add-only hook corpus/C03/hook-uniqueness-counters.diff: the answers of Gc::get_mut / make_mut per calling
+             file must be the model's in-place / copy decisions, program by program.
 oracle     : S (the driver's expected output).  real != S is a violation unless the program is in the class of an
              open finding.
 """
@@ -25,14 +33,15 @@ from . import common as C
 
 sys.path.insert(0, C.VERIF)
 from gen import alias03 as A   # noqa: E402
+from gen import bc03 as B      # noqa: E402
 
 PID = "C03"
 META = {
     "ready": True,
     "category": "proof",
-    "technique": "Lean 4 refinement proof: a reference-counted object store with in-place update under a uniqueness test refines the persistent (pure value) semantics for every operation sequence, every sharing pattern and every choice of last uses; tied to /repo by a translator (list of in-place primitives and the test they use) and by differential execution of generated alias-heavy programs (real engine vs the specification computed by the compiled Lean driver)",
-    "level_text": "Theorems (lean/SteelVerif/C03/Props.lean): inplace_refines_persistent - for every list of operations new/lit/alias/move(last use)/drop/get(derived value)/update over a store id -> (kind, slots, rc) with nested objects, for every sound uniqueness test (true only when rc = 1; the code's test is has_unique_ref, proved sound in C05) and every choice of which updates try the in-place path, after every step rc o = number of references to o (holders, slots, pending releases) and every holder unfolds in M to exactly the pure tree S gives it (view_eq: as a computed equality; bound_eq); update_is_fresh_copy (the result is the update applied to the old pure value, every other holder keeps its value, on both paths); last_use_move_safe (moving instead of copying at a last use is unobservable); inplace_unsound_if_count_wrong (with a test that ignores the count, or is off by one, an alias observes the update: the hypothesis is needed). The clauses of the property that no theorem carries (that a Steel program is such an operation list, soundness of the real uniqueness test = C05, correctness of the compiler's last-use marks, threads, sharing inside a collection) are listed at the end of Props.lean.  The model is hand-written; it is tied to /repo on every run by translate/c03_inplace.py (which primitives can write in place, that each of them tests Gc::get_mut/make_mut = BiasedRc::has_unique_ref, none decides on strong_count, no weak references) and by running generated programs on the real engine with STEEL_JIT on and off.",
-    "level_note": "Trusted: Lean kernel (propext, Classical.choice, Quot.sound only), the translator's regexes and its reviewed classification table, harness/driver/generator/comparison, C05's theorem that has_unique_ref is a sound test. Not modelled (differential run only): the compiler's last-use analysis and the VM's move op codes (any choice of moves is covered by the theorem, that the compiler's choice is a last use is C01's), the JIT, the structural sharing inside im-lists / steel-imbl (their nodes use the same Gc::make_mut; modelled as one object per collection), open continuation marks. The persistent semantics of the Steel primitives themselves (what append, hash-union, ... compute) is the driver's table, compared with the real engine on every run.",
+    "technique": "Lean 4 refinement proofs: (a) a reference-counted object store with in-place update under a uniqueness test refines the persistent (pure value) semantics for every operation sequence, sharing pattern and choice of last uses; (b) the same for every PROGRAM of every small-step machine over that store, instantiated with a stack VM over the real op codes (MOVEREADLOCAL, argument passing, closure capture, tail calls, call/cc) and with any interleaving of several VM threads; (c) composition with C05: the uniqueness test is the one C05 proves sound.  Tied to /repo by a translator (in-place primitives, the test they use, the argument whose slot reaches the test vs the model's primitive table) and by differential execution: alias-heavy programs on the real engine vs S, and the REAL compiler's bytecode listings executed by the VM model vs the real VM vs S",
+    "level_text": "Theorems. Props.lean: inplace_refines_persistent - for every list of operations new/lit/alias/move(last use)/drop/get(derived value)/update over a store id -> (kind, slots, rc) with nested objects, for every sound uniqueness test and every choice of which updates try the in-place path, after every step rc o = number of references to o and every holder unfolds in M to exactly the pure tree S gives it (view_eq, bound_eq); update_is_fresh_copy; last_use_move_safe; inplace_unsound_if_count_wrong. PropsVM.lean: mach_refines / program_refines - every program of every machine whose control sees only bounded unfoldings of the holders it names runs in lock step on M and S; program_inplace_eq_copy / program_views_eq - in-place-if-unique and always-copy primitives give the same control state and the same value in every holder; vm_refines - for EVERY instruction sequence over the real op codes of C01C.Instr (READLOCAL clones, MOVEREADLOCAL moves and leaves void, FUNC moves the callee into the frame, NEWSCLOSURE/READCAPTURED clone into/out of the closure object, primitives update the operand slot `plan` names, returns/tail calls/LETENDSCOPE drop the dying slots, call/cc clones the stack into a continuation object); core_program_inplace_unobservable - for every program of the lowered core (with last-usage flags) compiled by the code generator C01 proves correct; threads_refine - any number of VM threads over shared globals, every interleaving of instructions; vm_inplace_unsound_if_count_wrong (a re-entered continuation observes the update under a test that ignores the count); plan_upd_target + GenInPlace.stolen_args_match_model (generated, by decide): the argument the model lets each primitive update in place is the argument whose stack slot reaches Gc::get_mut/make_mut/the im-lists call in the source (hash-union's second, right-operand arm is an oracle of the VM, every choice covered; exception listed: #%struct-update). C05Link.lean: c05_unique_true_total_one (from C05's invariant, every schedule), soundTest_of_c05, inplace_refines_persistent_c05: the test that answers what C05's model of has_unique_ref answers is sound, given that the object's count is the number of counted references of its C05 history (field count_ok: assumed, not proved). The clauses no theorem carries are listed at the end of Props.lean. Tie: translate/c03_inplace.py on every run; 600 alias-heavy programs x STEEL_JIT on/off vs S (the straight-line ones also compiled with C01C.compile and run on the VM model: same prints, same in-place/copy decisions as the hand-written operation lists); 160 programs whose REAL bytecode listing (debug_build_strings, with analysis.rs's MOVEREADLOCAL marks) is executed by the VM model: model = real VM = S on all of them; thorough tier: the same harness built against a scratch copy of /repo with the add-only counter hook corpus/C03/hook-uniqueness-counters.diff - the answers of Gc::get_mut in vectors.rs / hashmaps.rs / hashsets.rs are the model's in-place / copy decisions program by program (800/800), except the measured, safe-direction hidden reference of im-lists (cdr/rest keep the removed cell: directed family, real unique <= model in place).",
+    "level_note": "Trusted: Lean kernel (propext, Classical.choice, Quot.sound only), the translator's regexes / pattern tracing and its reviewed classification table, harness/driver/generators/comparison. Hand-written and tied only differentially: VM.lean (after vm.rs; checked against the real VM on the real listings of generated programs, all of which are inside its op codes so far), the primitive table `plan`, the model's call/cc. Not proved: the product of C03's counts with C05's protocol (count_ok), correctness of the compiler's last-use marks (irrelevant to this property: any marking is covered), interleavings below instruction granularity (C05), the JIT, structural sharing inside im-lists / steel-imbl (assumed contract: PersistentLibSpec). Open finding hit by the threaded programs: K03b (a spawned thread reads globals as undefined while main defines globals; root cause K15b).",
 }
 
 HARNESS = "c03"
@@ -103,23 +112,34 @@ def run_real(progs, env=None, timeout=600):
 
 
 def run_driver(texts, timeout=900):
-    """abstract programs (serialised) -> list of dict(out=[lines], stats={...}) from the Lean driver"""
-    inp = "\n".join(texts) + "\n"
-    rc, out, err = C.run_bin([C.driver_path(DRIVER)], inp, timeout=timeout)
-    res, cur = [], None
-    for line in out.split("\n"):
-        if line == "\x1eB":
-            cur = {"out": [], "stats": {}, "err": None}
-            res.append(cur)
-        elif cur is None:
-            continue
-        elif line.startswith("\x1eS "):
-            cur["stats"] = dict((k, int(v)) for k, v in re.findall(r"(\w+)=(\d+)", line))
-        elif line.startswith("\x1eX "):
-            cur["err"] = line[3:]
-        elif line != "":
-            cur["out"].append(line)
-    return rc, res, err
+    """abstract programs (serialised) -> list of dict(out=[lines], stats={...}) from the Lean driver (NCPU processes)"""
+    def one(chunk):
+        inp = "\n".join(chunk) + "\n"
+        rc, out, err = C.run_bin([C.driver_path(DRIVER)], inp, timeout=timeout)
+        res, cur = [], None
+        for line in out.split("\n"):
+            if line == "\x1eB":
+                cur = {"out": [], "stats": {}, "err": None}
+                res.append(cur)
+            elif cur is None:
+                continue
+            elif line.startswith("\x1eS "):
+                cur["stats"] = dict((k, int(v)) for k, v in re.findall(r"(\w+)=(\d+)", line))
+            elif line.startswith("\x1eX "):
+                cur["err"] = line[3:]
+            elif line != "":
+                cur["out"].append(line)
+        if len(res) != len(chunk) and rc == 0:
+            rc = 5
+        return rc, res, err
+    size = max(1, min(60, (len(texts) + C.NCPU - 1) // C.NCPU))
+    chunks = [texts[i:i + size] for i in range(0, len(texts), size)]
+    rcs, allres, errs = 0, [], ""
+    for rc, res, err in C.pool_map(one, chunks):
+        rcs = rcs or rc
+        allres += res
+        errs += (err or "")
+    return rcs, allres, errs
 
 
 # ------------------------------------------------------------------------------------------------
@@ -172,6 +192,231 @@ def run_corpus(ctx, stats, known_ids):
                        "directed case corpus/C03/%s" % c["name"])
 
 
+# ------------------------------------------------------------------------------------------------
+# bytecode tie: the listing of the real compiler, executed by the reference-counting VM model
+# ------------------------------------------------------------------------------------------------
+def run_real_bc(srcs, timeout=600, binary=None):
+    """harness --bc on every program (NCPU child processes): list of dict(builtins, listing=[lines], result=str)"""
+    n = len(srcs)
+    results = [None] * n
+
+    def parse(out):
+        recs = []
+        for blk in out.split("\x1eB\n")[1:]:
+            lst, _, after = blk.partition("\x1eX")
+            m = re.search(r"\x1eK #builtins (\d+)", lst)
+            listing = [l for l in lst.split("\n") if l.strip() and not l.startswith("\x1eK")]
+            r = re.search(r"\x1eR (.*)", after)
+            rec = {"builtins": int(m.group(1)) if m else 0, "listing": listing, "result": r.group(1) if r else None}
+            cm = re.search(r"\x1eC (.*)", after)
+            if cm is not None:
+                # optional hook output: answers of Gc::get_mut / make_mut per calling file (unique, shared)
+                rec["uniq"] = dict((mm.group(1).split("src/")[-1], (int(mm.group(2)), int(mm.group(3))))
+                                   for mm in re.finditer(r"(\S+)=(\d+)/(\d+)", cm.group(1)))
+            recs.append(rec)
+        return recs
+
+    def run_chunk(idxs):
+        todo = list(idxs)
+        while todo:
+            text = SEP.join(srcs[i] for i in todo) + "\n"
+            rc, out, err = C.run_bin([binary or C.bin_path(HARNESS), "--bc"], text, timeout=timeout)
+            recs = parse(out)
+            k = 0
+            for k, i in enumerate(todo):
+                if k < len(recs) and recs[k]["result"] is not None:
+                    results[i] = recs[k]
+                else:
+                    break
+            else:
+                return
+            i = todo[k]
+            why = "timeout" if rc == 124 else "exit %d: %s" % (rc, ((err or "").strip().splitlines() or [""])[-1])
+            results[i] = {"builtins": 0, "listing": recs[k]["listing"] if k < len(recs) else [], "result": "crash " + why}
+            todo = todo[k + 1:]
+
+    chunks = [list(range(i, n, C.NCPU)) for i in range(C.NCPU)]
+    C.pool_map(run_chunk, [c for c in chunks if c])
+    return results
+
+
+def run_driver_bc(recs, timeout=900):
+    def one(chunk):
+        inp = []
+        for r in chunk:
+            inp.append("bcprog")
+            inp.append("builtins %d" % r["builtins"])
+            inp += r["listing"]
+            inp.append("endbcprog")
+        rc, out, err = C.run_bin([C.driver_path(DRIVER), "bc"], "\n".join(inp) + "\n", timeout=timeout)
+        res = []
+        for blk in out.split("\x1eB\n")[1:]:
+            m = re.search(r"^R (.*)$", blk, re.M)
+            e = re.search(r"\x1eX (.*)", blk)
+            res.append({"vals": m.group(1).split("\x1f") if m else [], "err": e.group(1) if e else None,
+                        "stats": dict((k, int(v)) for k, v in re.findall(r"(\w+)=(\d+)", blk.split("\x1eS", 1)[1].split("\n")[0])) if "\x1eS" in blk else {}})
+        if len(res) != len(chunk) and rc == 0:
+            rc = 5
+        return rc, res, err
+    size = max(1, min(100, (len(recs) + C.NCPU - 1) // C.NCPU))
+    chunks = [recs[i:i + size] for i in range(0, len(recs), size)]
+    rcs, allres, errs = 0, [], ""
+    for rc, res, err in C.pool_map(one, chunks):
+        rcs = rcs or rc
+        allres += res
+        errs += (err or "")
+    return rcs, allres, errs
+
+
+def check_bytecode(ctx, rng, stats, quick, binary=None, key="bytecode", n=None, progs=None, exact_counts=True):
+    """real compiler -> listing -> (a) the real VM runs it, (b) the model VM (M: reference-counted store, and S) runs it;
+    both results against the persistent semantics computed by the generator."""
+    n = n or (160 if quick else int(os.environ.get("C03_THOROUGH_BC", "4000")))
+    bs = stats[key] = {"programs": 0, "in_model": 0, "outside_model": {}, "real_eq_S": 0, "model_eq_real": 0,
+                              "model": {}, "opcodes": {}, "samples": []}
+    progs = progs or [B.gen_program(rng, rng.randint(2, 10 if quick else 16)) for _ in range(n)]
+    recs = run_real_bc([p["src"] for p in progs], binary=binary)
+    rc, drv, derr = run_driver_bc(recs)
+    if rc != 0 or len(drv) != len(progs):
+        stats["pending"].append(("C03-driver-bc.txt", "# c03driver bc failed: rc=%d answers=%d/%d\n# %s\n" % (rc, len(drv), len(progs), (derr or "")[-500:])))
+        return
+    for p, r, d in zip(progs, recs, drv):
+        bs["programs"] += 1
+        for l in r["listing"]:
+            m = re.match(r"\s*\d+\s+(\w+)", l)
+            if m:
+                bs["opcodes"][m.group(1)] = bs["opcodes"].get(m.group(1), 0) + 1
+        res = r["result"] or "?"
+        realv = res[3:].split("\x1f")[-1] if res.startswith("ok ") else res
+        # the property: the real engine must print what the persistent semantics says
+        if realv != p["expect"]:
+            if res.startswith("crash timeout"):
+                stats["transient_timeouts"] += 1
+                continue
+            body = ";; C03 violation (bytecode family): the real engine's result differs from the persistent semantics\n"
+            body += ";;   real engine : %s\n;;   S (expected): %s\n;;   model VM    : %s\n" % (realv, p["expect"], (d["vals"] or ["-"])[-1])
+            body += ";; expected output:\n;;= %s\n" % p["expect"] + p["src"]
+            if len([v for v in ctx.violations if not v[1]]) < 6:
+                ctx.violation("C03-bc-%d.scm" % bs["programs"], body)
+            continue
+        bs["real_eq_S"] += 1
+        if d["err"] and d["err"].startswith("outside the model"):
+            for why in d["err"].split(": ", 1)[1].split(", "):
+                bs["outside_model"][why] = bs["outside_model"].get(why, 0) + 1
+            continue
+        bs["in_model"] += 1
+        for k, v in d["stats"].items():
+            bs["model"][k] = bs["model"].get(k, 0) + v
+        if d["err"] or not d["vals"] or d["vals"][-1] != realv:
+            stats["pending"].append(("C03-bc-model-%d.txt" % bs["programs"],
+                                     "# the VM model (lean/SteelVerif/C03/VM.lean) executing the REAL listing does not compute what the real VM computes\n"
+                                     "# model: %s %s\n# real : %s\n%s\n# listing:\n%s\n" % (d["err"], d["vals"], realv, p["src"], "\n".join(r["listing"]))))
+            continue
+        bs["model_eq_real"] += 1
+        if "uniq" in r:
+            # with the proposed hook: the answers of the real uniqueness tests, per file of the calling primitive, against
+            # the paths the model took for objects of the corresponding kind (hash-union tests both operands: skipped)
+            bs["hook_programs"] = bs.get("hook_programs", 0) + 1
+            for fname, ku, ks, skip in (("primitives/vectors.rs", "vecU", "vecS", None), ("primitives/hashmaps.rs", "mapU", "mapS", "hash-union"),
+                                        ("primitives/hashsets.rs", "setU", "setS", None), ("primitives/strings.rs", "strU", "strS", None)):
+                if skip and skip in p["src"]:
+                    continue
+                real_us = r["uniq"].get(fname, (0, 0))
+                model_us = (d["stats"].get(ku, 0), d["stats"].get(ks, 0))
+                acc = bs.setdefault("hook_answers", {}).setdefault(fname, {"real": [0, 0], "model": [0, 0], "programs_equal": 0, "programs_differ": 0})
+                acc["real"][0] += real_us[0]; acc["real"][1] += real_us[1]
+                acc["model"][0] += model_us[0]; acc["model"][1] += model_us[1]
+                if tuple(real_us) == model_us:
+                    acc["programs_equal"] += 1
+                elif not exact_counts and real_us[0] <= model_us[0] and sum(real_us) == sum(model_us):
+                    # the directed hidden-reference family: the real VM may find a value shared that the model finds unique
+                    # (a reference kept inside an im-lists chunk), never the other way round
+                    acc["programs_real_more_conservative"] = acc.get("programs_real_more_conservative", 0) + 1
+                else:
+                    acc["programs_differ"] += 1
+                    stats["pending"].append(("C03-bc-counts-%d.txt" % bs["programs"],
+                                             "# the reference count the real VM presents at the uniqueness tests of %s differs from the model's\n"
+                                             "# real (unique, shared) = %s   model (in place, copy) = %s\n%s\n" % (fname, real_us, model_us, p["src"])))
+        if len(bs["samples"]) < 2 and d["stats"].get("vminplace", 0) and d["stats"].get("vmcopy", 0):
+            bs["samples"].append({"src": p["src"].splitlines(), "expected": p["expect"], "real": realv, "model": d["vals"][-1], "paths": d["stats"]})
+    if bs["programs"] >= 50 and bs["in_model"] * 2 < bs["programs"]:
+        stats["pending"].append(("C03-bc-coverage.txt", "# fewer than half of the generated bytecode-family programs compile to op codes the VM model has: %s\n" % bs["outside_model"]))
+    for need in ("MOVEREADLOCAL0", "READLOCAL0", "NEWSCLOSURE", "READCAPTURED", "CALLGLOBALTAIL", "LETENDSCOPE"):
+        if bs["programs"] >= 100 and not bs["opcodes"].get(need):
+            ctx.notes.append("bytecode family: op code %s did not occur in %d listings" % (need, bs["programs"]))
+    ctx.log("bytecode family: %d programs, real = S on %d, inside the model %d, model = real on %d; model paths %s"
+            % (bs["programs"], bs["real_eq_S"], bs["in_model"], bs["model_eq_real"], bs["model"]))
+
+
+# ------------------------------------------------------------------------------------------------
+# thorough tier: the same harness built against a scratch copy of /repo that carries the add-only counter hook
+# corpus/C03/hook-uniqueness-counters.diff (Gc::get_mut / make_mut count their answers per calling file).  /repo itself is
+# not touched.  Until the coordinator applies the hook to /repo this is how the reference counts the real VM presents at
+# the uniqueness tests are compared with the model's.
+# ------------------------------------------------------------------------------------------------
+def build_hooked_harness(ctx):
+    import filecmp
+    import shutil
+    import subprocess
+    root = os.path.join(C.VERIF, ".build", "C03", "hookbuild")
+    repo = os.path.join(root, "repo")
+    diff = os.path.join(C.VERIF, "corpus", "C03", "hook-uniqueness-counters.diff")
+    if not os.path.exists(diff):
+        return None, "hook diff missing"
+    # stage: fresh copy + patch in a temporary directory, then copy only what differs (keeps mtimes: incremental builds)
+    stage = os.path.join(root, "stage")
+    shutil.rmtree(stage, ignore_errors=True)
+    os.makedirs(stage)
+    src_repo = "/repo"
+    for sub in sorted(x for x in os.listdir(src_repo) if x not in ("target", ".git")):
+        s = os.path.join(src_repo, sub)
+        if os.path.isdir(s):
+            shutil.copytree(s, os.path.join(stage, sub), symlinks=True, ignore=shutil.ignore_patterns("target", ".git"))
+        elif os.path.exists(s):
+            shutil.copy2(s, os.path.join(stage, sub))
+    p = subprocess.run(["patch", "-p1", "-s", "-i", diff], cwd=stage, stdin=subprocess.DEVNULL, capture_output=True, text=True, timeout=60)
+    if p.returncode != 0:
+        return None, "the hook diff no longer applies to /repo: " + (p.stdout + p.stderr).strip()[-300:]
+    os.makedirs(repo, exist_ok=True)
+    for d, _, files in os.walk(stage):
+        rel = os.path.relpath(d, stage)
+        os.makedirs(os.path.join(repo, rel), exist_ok=True)
+        for fn in files:
+            a, b = os.path.join(d, fn), os.path.join(repo, rel, fn)
+            if fn.endswith((".orig", ".rej")):
+                continue
+            if not os.path.exists(b) or not filecmp.cmp(a, b, shallow=False):
+                shutil.copy2(a, b)
+    for d, _, files in os.walk(repo):
+        rel = os.path.relpath(d, repo)
+        for fn in files:
+            if not os.path.exists(os.path.join(stage, rel, fn)):
+                os.remove(os.path.join(d, fn))
+    shutil.rmtree(stage, ignore_errors=True)
+    h = os.path.join(root, "harness")
+    os.makedirs(os.path.join(h, "src", "bin"), exist_ok=True)
+    hsrc = os.path.join(C.VERIF, "harness")
+    toml = open(os.path.join(hsrc, "Cargo.toml")).read().replace("/repo/", repo + "/")
+    for rel, content in (("Cargo.toml", toml), ("Cargo.lock", open(os.path.join(hsrc, "Cargo.lock")).read()),
+                         ("src/main.rs", open(os.path.join(hsrc, "src", "main.rs")).read()),
+                         ("src/bin/c03.rs", open(os.path.join(hsrc, "src", "bin", "c03.rs")).read())):
+        dst = os.path.join(h, rel)
+        if not os.path.exists(dst) or open(dst).read() != content:
+            open(dst, "w").write(content)
+    env = dict(os.environ)
+    env.update({"CARGO_NET_OFFLINE": "true", "CARGO_TARGET_DIR": os.path.join(root, "target"),
+                "RUSTFLAGS": "--cfg steel_verif --cfg c03_hook"})
+    try:
+        p = subprocess.run(["nice", "-n", "10", "cargo", "build", "--bin", "c03"], cwd=h, stdin=subprocess.DEVNULL,
+                           capture_output=True, text=True, timeout=1500, env=env)
+    except subprocess.TimeoutExpired:
+        return None, "building the hooked harness took more than 1500 s"
+    binp = os.path.join(root, "target", "debug", "c03")
+    if p.returncode != 0 or not os.path.exists(binp):
+        return None, "the hooked harness does not build: " + p.stderr.strip()[-400:]
+    return binp, "ok"
+
+
 def first_diff(real, exp):
     for i in range(max(len(real), len(exp))):
         a = real[i] if i < len(real) else "<nothing>"
@@ -216,7 +461,36 @@ def in_class_k03a(prog):
     return bool(hit)
 
 
-CLASSES = {"K03a": in_class_k03a}
+def in_class_k03b(prog):
+    """K03b: the main thread spawns a thread and then goes on defining / assigning GLOBALS before it joins it (layout `top`:
+    every statement of the main block is a top-level define; other layouts: a `gset`)"""
+    main = prog["main"]
+    top = prog.get("layout", "top") == "top"
+    for i, st in enumerate(main):
+        if st[0] != "spawn":
+            continue
+        for later in main[i + 1:]:
+            if later[0] == "join" and later[1] == st[1]:
+                break
+            if later[0] == "gset" or (top and later[0] in ("def", "set", "clo", "box", "loop", "spawn", "kont")):
+                return True
+    return False
+
+
+def outcome_k03b(r, exp):
+    """how K03b fails: the spawned thread reads a global as undefined / void; the run ends with that error, everything
+    printed before it is what S says.  (A wrong printed value is NOT this finding.)"""
+    if r["res"][0] != "err":
+        return False
+    msg = r["res"][1]
+    if not ("Function application not a procedure" in msg and "#<void>" in msg or "FreeIdentifier" in msg
+            or "free identifier" in msg.lower()):
+        return False
+    return r["out"] == exp[:len(r["out"])]
+
+
+CLASSES = {"K03a": in_class_k03a, "K03b": in_class_k03b}
+OUTCOMES = {"K03b": outcome_k03b}
 
 
 # ------------------------------------------------------------------------------------------------
@@ -241,10 +515,10 @@ def run(ctx):
         stats["pending"].append(("C03-translator.txt", "# translate/c03_inplace.py no longer understands the sources of /repo:\n# %s\n"
                                  % tout.strip()[-800:]))
     # prove
-    pr = C.prove(ctx, "C03", ["SteelVerif.C03.GenInPlace", DRIVER])
+    pr = C.prove(ctx, "C03", ["SteelVerif.C03.GenInPlace", "SteelVerif.C03.PropsVM", "SteelVerif.C03.C05Link", DRIVER])
     ok, log = C.build_harness(ctx, [HARNESS])
     cov = {"obligations": pr["obligations"], "discharged": pr["discharged"],
-           "checker_cmd": "cd lean && lake build SteelVerif.C03.Props SteelVerif.C03.GenInPlace && lake env lean SteelVerif/C03/Audit.lean",
+           "checker_cmd": "cd lean && lake build SteelVerif.C03.Props SteelVerif.C03.PropsVM SteelVerif.C03.C05Link SteelVerif.C03.GenInPlace && lake env lean SteelVerif/C03/Audit.lean",
            "trusted_base": C.TRUSTED_BASE + ["translate/c03_inplace.py (regex extraction; reviewed classification table)",
                                              "C05: has_unique_ref answers true only for the sole reference"]}
     if not ok or not os.path.exists(C.driver_path(DRIVER)):
@@ -261,7 +535,7 @@ def run(ctx):
     total = 600 if quick else 40000
     maxops = 25 if quick else 120
     done = 0
-    batch = 600 if quick else 1600
+    batch = 600 if quick else int(os.environ.get("C03_THOROUGH_BATCH", "1600"))
     # the thorough tier stops after its wall-clock budget (the evidence reports how many programs were run)
     budget = None if quick else float(os.environ.get("C03_THOROUGH_BUDGET_S", "1500"))
     import time
@@ -288,6 +562,19 @@ def run(ctx):
     for _ in range(40 if quick else 400):
         kprogs.append(gen_k03a(rng))
     check_batch(ctx, kprogs, stats, known, "k03a")
+
+    # the VM model on the listings of the real compiler
+    check_bytecode(ctx, rng, stats, quick)
+    if not quick and os.environ.get("C03_NO_HOOK_BUILD") != "1":
+        # ... and, against a scratch copy of /repo with the counter hook, the answers of the real uniqueness tests
+        binp, why = build_hooked_harness(ctx)
+        ctx.log("hooked harness (scratch copy of /repo + corpus/C03/hook-uniqueness-counters.diff): %s" % why)
+        if binp:
+            check_bytecode(ctx, rng, stats, quick, binary=binp, key="bytecode_with_counter_hook", n=800)
+            check_bytecode(ctx, rng, stats, quick, binary=binp, key="bytecode_hidden_reference_family", progs=B.hidden_reference_programs(),
+                           exact_counts=False)
+        else:
+            ctx.notes.append("uniqueness-counter hook not available: " + why)
 
     # decide
     if not pr["ok"] and not ctx.violations:
@@ -324,6 +611,10 @@ def run(ctx):
         "operations": stats["ops"], "call_forms": stats["vias"], "layouts": stats["layouts"],
         "programs_with_threads": stats["threads"], "programs_with_continuation_reentry": stats["kont"],
         "model_paths": stats["model"],
+        "vm_model_on_abstract_programs": {k: v for k, v in stats["model"].items() if k.startswith("vm")},
+        "bytecode_family(real listing executed by the VM model)": stats.get("bytecode", {}),
+        "bytecode_family_with_counter_hook(thorough tier; real uniqueness answers per file vs the model's paths)": stats.get("bytecode_with_counter_hook", {}),
+        "bytecode_hidden_reference_family(cdr/rest of a unique list holding a collection: real unique <= model in place)": stats.get("bytecode_hidden_reference_family", {}),
         "real_uniqueness_answers_per_calling_file(unique,shared; needs the proposed hook, includes the prelude)": stats["real_uniqueness_answers"],
         "python_oracle_vs_lean_S_mismatches": stats["oracle_mismatch"],
         "timeouts_that_passed_when_rerun_alone": stats["transient_timeouts"],
@@ -413,7 +704,7 @@ def check_batch(ctx, progs, stats, known, label):
             # real != S: known class?
             hit = None
             for fid, pred in CLASSES.items():
-                if fid in known and pred(p):
+                if fid in known and pred(p) and OUTCOMES.get(fid, lambda r_, e_: True)(r, exp):
                     hit = fid
                     break
             if hit:
